@@ -146,6 +146,51 @@ def correspond(ctx):
             lines.append('optimalqp x=%s s=%s y=%s z=%s tol=%s,%s,%s' % (vec(mlist(r['x'])), vec(mlist(r['s'])), vec(mlist(r['y'])), vec(mlist(r['z'])),
                                                                          fr(tol_eff(1e-7) + Fraction(fslack)), fr(tol_eff(1e-7)), fr(tol_eff(1e-6))))
             meta.append((tag, r, desc, (1e-7, 1e-7, 1e-6), fslack))
+    # ---- directed family for user start points: (x0, s0, y0, z0) satisfies the linear KKT equations exactly but s0 or z0 lies outside the
+    # cone (so that the gap s0'z0 is negative and every residual is zero): the documented answer is ValueError; whatever is returned as
+    # 'optimal' is judged by the checker like every other result
+    for i in range(30 if ctx.quick() else 600):
+        pr = PR.planted_conelp(rng, 'optimal', P_rank=rng.randint(0, 3))
+        w = pr.wit; dims = pr.dims
+        which = rng.choice(['z', 's', 'z'])
+        blocks = [(0, dims['l'])] if dims['l'] else []
+        off = dims['l']
+        for m in dims['q']: blocks.append((off, m)); off += m
+        for k in dims['s']:
+            if k: blocks.append((off, k * k))
+            off += k * k
+        bad = list(w[which]); good = w['s' if which == 'z' else 'z']
+        if rng.random() < 0.5: bad = [-v for v in bad]                         # the whole vector negated
+        else:
+            o_, m_ = rng.choice(blocks); f_ = 1.0 + 2.0 * sum(abs(a * b_) for a, b_ in zip(bad, good))
+            for t in range(o_, o_ + m_): bad[t] = -f_ * bad[t]                 # one block negated and scaled up: the gap is negative
+        x0, y0 = w['x'], w['y']
+        s0, z0 = (w['s'], bad) if which == 'z' else (bad, w['z'])
+        Px0 = PR.matvec(pr.P, x0) if pr.P is not None else [0.0] * pr.n
+        cq = [-(a + b_ + c_) for a, b_, c_ in zip(PR.mattvec(pr.G, z0), PR.mattvec(pr.A, y0), Px0)]
+        hq = [a + b_ for a, b_ in zip(PR.matvec(pr.G, x0), s0)]
+        pr2 = PR.Planted(**dict(pr.__dict__, c=cq, h=hq, wit={}))
+        c2, G2, h2, A2, b2, P2 = PR.to_cvx(cvxopt, pr2)
+        keys = ['x', 's', 'y', 'z'] if rng.random() < 0.6 else ['x', 's', 'z'] + (['y'] if any(y0) else [])
+        iv = {'x': matrix(x0, (pr.n, 1), 'd'), 's': matrix(s0, (pr.N, 1), 'd'), 'y': matrix(y0, (pr.p, 1), 'd'), 'z': matrix(z0, (pr.N, 1), 'd')}
+        iv = {k: iv[k] for k in keys}
+        for ent in (['coneqp'] + (['qp'] if not (dims['q'] or dims['s']) else [])):
+            o = {'show_progress': False}
+            stats['solves'] += 1
+            try:
+                if ent == 'coneqp': r = quiet(solvers.coneqp, P2, c2, G2, h2, dims, A2, b2, initvals=iv, options=o)
+                else: r = quiet(solvers.qp, P2, c2, G2, h2, A2, b2, initvals=iv, options=o)
+            except Exception as e:
+                stats['start-outside-cone:' + type(e).__name__] = stats.get('start-outside-cone:' + type(e).__name__, 0) + 1; continue
+            stats['start-outside-cone:' + r['status']] = stats.get('start-outside-cone:' + r['status'], 0) + 1
+            if r['status'] != 'optimal': continue
+            tag = '%s initvals with %s outside the cone' % (ent, which)
+            desc = {'seed': ctx.seed, 'index': 'start-%d' % i, 'presentation': tag, 'dims': dims, 'P': pr2.P, 'q': cq, 'G': pr2.G, 'h': hq, 'A': pr2.A, 'b': pr2.b,
+                    'initvals': {'x': x0, 's': s0, 'y': y0, 'z': z0, 'given': keys}, 'options': {}}
+            lines.append(certlib.prob_line(pr2)); meta.append(None)
+            lines.append('optimalqp x=%s s=%s y=%s z=%s tol=%s,%s,%s' % (vec(mlist(r['x'])), vec(mlist(r['s'])), vec(mlist(r['y'])), vec(mlist(r['z'])),
+                                                                         fr(tol_eff(1e-7)), fr(tol_eff(1e-7)), fr(tol_eff(1e-6))))
+            meta.append((tag, r, desc, (1e-7, 1e-7, 1e-6), 0.0))
     out = vlib.drive('Cert', lines) if lines else []
     judged = 0
     for l, o, m in zip(lines, out, meta):
